@@ -2,12 +2,14 @@
 import multiprocessing as mp
 import os
 
-from ..lib import tlc
+from ..lib import cbuild, tlc
 from ..lib.common import workdir, rmworkdir, seed, log, MachineryError
 from ..lib.report import Report
-from ..drivers import simdrv, asmdrv
+from ..drivers import simdrv, asmdrv, replaylib
 
 PID = 'C02'
+SLIM_KEYS = {'dis': ('kind', 'pc', 'ov', 'opts', 'template', 'lits', 'ibytes', 'reasm', 'exc'),
+             'def': ('kind', 'data', 'covers', 'reasm', 'exc'), 'asm': ('kind', 'accepted', 'bytes1', 'bytes2', 'exc')}
 
 
 def run(tier):
@@ -24,8 +26,7 @@ def run(tier):
         asms = pool.map(asmdrv.gen_asm, [(sd * 41 + k, nasm // 16) for k in range(16)])
     cases = [c for p in dis for c in p] + [c for p in defs for c in p] + [c for p in asms for c in p]
     log('C02: %d cases' % len(cases))
-    slim_keys = {'dis': ('kind', 'pc', 'ov', 'opts', 'template', 'lits', 'ibytes', 'reasm', 'exc'),
-                 'def': ('kind', 'data', 'covers', 'reasm', 'exc'), 'asm': ('kind', 'accepted', 'bytes1', 'bytes2', 'exc')}
+    slim_keys = SLIM_KEYS
     accepted = crashes = 0
     for b in range(0, len(cases), 50000):
         part = cases[b:b + 50000]
@@ -74,3 +75,60 @@ def run(tier):
                 'distinct_nontrivial = distinct (slot, base, hex, lower) + DEF inputs + accepted spellings')
     rmworkdir('c02')
     return rep.finish()
+
+
+def replay(path):
+    """./check C02 --replay replays/C02-n.json : the recorded bytes / DEFx range / spelling through the Disassembler and
+    Assembler of the current tree again, judged by AsmCases."""
+    d, rp = replaylib.load(path, PID)
+    replaylib.need(rp, path, 'kind')
+    cbuild.repo_only()
+    from skoolkit.z80 import Assembler
+    asm = Assembler()
+    wd = workdir('replay-c02')
+    cases = []
+    if rp['kind'] == 'dis':
+        replaylib.need(rp, path, 'key', 'pc', 'ov', 'base', 'hex', 'lower', 'opts')
+        mem = list(simdrv.BASE)
+        for a, b in rp['ov']:
+            mem[a] = b
+        cases.append(asmdrv.dis_case(mem, rp['key'], rp['pc'], rp['ov'], rp['base'], bool(rp['hex']), bool(rp['lower']), rp['opts'], asm))
+    elif rp['kind'] == 'def':
+        replaylib.need(rp, path, 'stmt', 'start', 'data', 'hex', 'lower', 'sublengths')
+        inp = rp.get('input')
+        if inp:
+            datas, sizes = [inp['data']], [inp['sizes']]
+        else:
+            # written before the input was recorded: `data` is what the statements carried (an odd DEFW range has one byte more),
+            # and the DefbSize/DefmSize/DefwSize of the run are unknown: every combination the generator uses
+            n = sum(s[0] for s in rp['sublengths']) if all(s[0] for s in rp['sublengths']) else len(rp['data'])
+            datas = [rp['data'][:n]]
+            sizes = [[b, m, w] for b in (1, 3, 8) for m in (1, 4, 66) for w in (1, 2)]
+        for data in datas:
+            for sz in sizes:
+                cases.append(asmdrv.def_case(asm, [0] * 65536, rp['stmt'], rp['start'], list(data), bool(rp['hex']), bool(rp['lower']),
+                                             [tuple(s) for s in rp['sublengths']], sz))
+    elif rp['kind'] == 'asm':
+        replaylib.need(rp, path, 'text', 'addr')
+        # the disassembler's hex / lower-case setting of the recorded run; all four when it was not recorded (or nothing was
+        # disassembled in that run because the text was not accepted)
+        cfgs = [rp['dis_cfg']] if 'dis_cfg' in rp else [[h, l] for h in (0, 1) for l in (0, 1)]
+        for h, l in cfgs:
+            cases.append(asmdrv.asm_case(asm, [0] * 65536, rp['text'], rp['addr'], lambda: (bool(h), bool(l))))
+    else:
+        raise MachineryError('unusable replay file %s: unknown case kind %r' % (path, rp['kind']))
+    r, fails = tlc.judge('asm', 'AsmCases', 'AsmCases.cfg', [{k: c[k] for k in SLIM_KEYS[c['kind']]} for c in cases],
+                         casefile=os.path.join(wd, 'asm.json'))
+    found = []
+    for i, clause in fails:
+        c = cases[i]
+        if c['kind'] == 'dis':
+            found.append('dis:%s:base=%s:%s: %s at %d -> %r -> %s' % (c['key'], c['base'][0], clause, c['ibytes'], c['pc'], c['text'], c['reasm']))
+        elif c['kind'] == 'def':
+            found.append('def:%s:%s: %s sublengths %s sizes %s -> %r -> %s' % (c['stmt'], clause, c['input']['data'], c['sublengths'],
+                                                                              c['input']['sizes'], c['texts'], c['reasm']))
+        else:
+            found.append('asm:%s:%s: assemble(%r, %d) = %s; disassembled %r; reassembled %s' % (c['key'], clause, c['text'], c['addr'], c['bytes1'],
+                                                                                              c['text2'], c['bytes2']))
+    rmworkdir('replay-c02')
+    return replaylib.verdict(PID, path, found)
